@@ -444,6 +444,11 @@ func runCase(c *Case) {
 			if p != nil && e.K == "fail" && e.Kind == "nonode" {
 				w.src.noNode = 3
 			}
+			if p != nil && e.K == "fail" && e.Kind == "outage" {
+				// a long outage (12 polls without any node, below the manager's limit of 20) after a
+				// download that was active long enough to be seen by a poll, and then dropped
+				w.src.noNode = 12
+			}
 			w.src.pending = nil
 			w.src.Unlock()
 			if p == nil {
@@ -455,9 +460,21 @@ func runCase(c *Case) {
 				if kind == "nonode" {
 					kind = "drop"
 				}
+				if kind == "outage" {
+					kind = "drop"
+					time.Sleep(45 * time.Millisecond) // three polls of the block manager see the active download
+				}
 			}
 			w.deliver(p, kind)
-			w.rest(3*time.Second, nil)
+			again := w.rest(3*time.Second, nil)
+			if e.K == "fail" && again == nil {
+				// recovery: after a failed attempt the same block has to be requested again
+				select {
+				case <-w.idle:
+				default:
+					c.note = "no new request within 3 s after a failed download"
+				}
+			}
 			if e.K == "success" {
 				evs = append(evs, "ESuccess")
 			} else {
@@ -687,6 +704,10 @@ func genCase(r *coqfmt.Rand, id int, tier string) Case {
 			}
 		case 1:
 			c.Ops = append(c.Ops, Ev{K: "fail", Kind: []string{"drop", "wrong", "nonode"}[r.Intn(3)]})
+			if r.Chance(1, 5) { // two long outages around a slow failing download, for the same block
+				c.Ops[len(c.Ops)-1].Kind = "outage"
+				c.Ops = append(c.Ops, Ev{K: "fail", Kind: "outage"})
+			}
 		case 2: // new headers while a request is pending, then the trigger MonitorHeaders would give
 			k := 1 + r.Intn(2)
 			for i := 0; i < k; i++ {
